@@ -17,7 +17,7 @@ EXPLANATION = (
     "violation. (R12.3) the unique-parent bookkeeping used for list detection forgets an existing parent iff it differs "
     "from the new (subject, predicate) in any component. (R12.4) the `@type` key is chosen only under `p == rdf:type && "
     "obj.is_iri() && !use_rdf_type`. (R12.5) a quad of a named graph always registers its subject under the graph node's "
-    "@graph entry. (R12.6) native JSON numbers / booleans are produced only under use_native_types(). NOT decided: list detection/suppression, named-graph placement, and every round-trip equality.")
+    "@graph entry. (R12.7) jsonify leaves a list node out only in the graph of the list's parent (the set of list nodes is keyed by label, nodes by (graph, label)). (R12.6) native JSON numbers / booleans are produced only under use_native_types(). NOT decided: list detection/suppression, named-graph placement, and every round-trip equality.")
 
 TABLE = {
     # --- node indexes
@@ -27,6 +27,8 @@ TABLE = {
         (1, "inode comes from enumerate() over self.node"),
     "serializer::engine::Engine::<'a, L>::jsonify#index:Vec:param2":
         (1, "inode is an index of self.node (enumerate() or an RdfObject::Node payload, both produced by Engine::index); gs_id and node have equal length"),
+    "serializer::engine::Engine::<'a, L>::jsonify::{closure}#index:Vec:param2":
+        (1, "gs_id[iparent]: iparent is a node index recorded by process_quads in unique_parent / list_node; gs_id and node only grow"),
     "serializer::engine::Engine::<'a, L>::jsonify::{closure#0}#index:Vec:param2.Node.0":
         (1, "RdfObject::Node payload: produced by Engine::index"),
     "serializer::engine::Engine::<'a, L>::convert_rdf_object#index:Vec:param2.Node.0":
@@ -322,9 +324,50 @@ def native_types_rule(ck, facts):
         ck.ok("R12.6", "convert_rdf_object: %d native conversions, all under use_native_types() == true" % len(parses))
 
 
+def list_suppression_rule(ck, facts):
+    """R12.7: nodes are identified by (graph, label) (`index`, `gs_id`), the set of list nodes by label only; so the test by
+    which `jsonify` leaves a list node out must also compare the graph of the node with the graph of the list's parent.
+    A bare lookup of the label suppresses the node of every graph that has this label, and the quads it carries there are
+    lost (4 quads in, 3 out)."""
+    fns = facts.find_fns(crate="sophia_jsonld", name_re=r"serializer::engine::Engine::<'a, L>::jsonify$")
+    if len(fns) != 1:
+        ck.bad("R12.7", "R12.7@jsonify#anchor", "anchor-missing: Engine::jsonify (%d)" % len(fns))
+        return
+    fn = fns[0]
+    lookups = []
+    graph_eq = 0
+    for f in facts.with_closures(fn):
+        for bi, t in f.calls():
+            if call_name_matches(t, r"HashMap::<K, V, S(, A)?>::(get|contains_key)$") and t["args"] and t["args"][0][0] != "k":
+                src = provenance(f, t["args"][0], transparent=())[-1]
+                if src[0] == "param" and any(str(p).endswith(":list_node") for p in src[2]):
+                    lookups.append((f, t))
+            if call_name_matches(t, r"cmp::PartialEq(<.*>)?>?::(eq|ne)$") and len(t["args"]) == 2:
+                # an equality between two graph ids: one side is component 0 of an element of gs_id
+                for a in t["args"]:
+                    if a[0] == "k":
+                        continue
+                    for o in provenance(f, a, transparent=()):
+                        pl = o[1] if o[0] == "place" else None
+                        if o[0] == "call" and call_name_matches(o[1], r"ops::Index<.*>>?::index$|ops::Index<I> for"):
+                            base = provenance(f, o[1]["args"][0], transparent=())[-1]
+                            if base[0] == "param" and any(str(p).endswith(":gs_id") for p in base[2]) and f is not fn:
+                                graph_eq += 1
+    if not lookups:
+        ck.bad("R12.7", "R12.7@jsonify#shape", "jsonify does not look list nodes up in list_node", fn.loc)
+    elif any(call_name_matches(t, r"::contains_key$") for _, t in lookups) or not graph_eq:
+        f, t = lookups[0]
+        ck.bad("R12.7", "R12.7@jsonify#label-only-suppression", "jsonify leaves a node out because its *label* is the label of a list node, "
+               "without comparing graphs: the node with that label in another graph is dropped with all its quads",
+               "%s:%s" % (t["file"], t["line"]))
+    else:
+        ck.ok("R12.7", "jsonify: a list node is left out only when its graph is the graph of the list's parent")
+
+
 def run(ck, facts, tier):
     facts.require_crates(["sophia_jsonld"])
     native_types_rule(ck, facts)
+    list_suppression_rule(ck, facts)
     filter_rule(ck, facts)
     unique_parent_rule(ck, facts)
     fns = [f for f in facts.fns.values() if f.crate == "sophia_jsonld" and re.search(r"jsonld/src/(serializer|util_traits)", f.file)]
